@@ -30,7 +30,7 @@ PLAN = {
     "C05": dict(families=[("parent", 36, 400), ("join", 18, 120)],
                 oracle=lambda h: (T.oracle_parents(h) if h.family == "parent" else
                                   [("C05",) + f[1:] for f in T.oracle_join(h) if "returning client" not in f[1] and "parent link" in f[1]]),
-                slices=["parent"], slice_families=("parent",), ref="§7 C05"),
+                slices=["parent", "hier"], slice_families=("parent",), ref="§7 C05"),
     "C04": dict(families=[("filter", 30, 300)], oracle=lambda h: T.filter_checks(h)[1], slices=["filter"], ref="§7 C04"),
     "C17": dict(families=[("fix", 30, 300)],
                 oracle=lambda h: T.fix_cases(h, False)[1] + [("C17",) + f[1:] for f in T.oracle_components(h) if f[0] == "C02"],
@@ -136,6 +136,17 @@ def check(prop_id, tier, seed, replay=None):
     # (T) slice correspondence
     lines, inst_of, skipped = [], {}, 0
     fault_groups = {}
+    if "hier" in plan["slices"]:
+        # bevy_hierarchy itself against `Slice/Hier` (order of the `Children` lists included): random sequences of local
+        # set_parent operations and guarded handler applications on a bare World, no networking
+        rc, hout, herr = C.run([C.harness_bin("hier"), str(seed), str((20000 if tier == "thorough" else 500) * mult)], timeout=600)
+        if rc != 0:
+            print("ERROR: hier harness failed: " + herr[-500:])
+            return 2
+        for l in hout.split("\n"):
+            if l.startswith("hier "):
+                inst_of[l.split(" ")[1]] = (None, {})
+                lines.append(l)
     for h in histories:
         if "fault" in plan["slices"]:
             for inst, steps, world, g, panicked in T.fault_lines(h, flags):
@@ -178,7 +189,7 @@ def check(prop_id, tier, seed, replay=None):
             for l in T.fix_cases(h, flags.get("fixReinsertsValue", False))[0]:
                 inst_of[l.split(" ")[1]] = (h, {})
                 lines.append(l)
-        for kind in [k for k in plan["slices"] if k not in ("fault", "skin", "fixrun", "filter", "conn", "asset", "mark", "snapj", "promo")]:
+        for kind in [k for k in plan["slices"] if k not in ("fault", "skin", "fixrun", "filter", "conn", "asset", "mark", "snapj", "promo", "hier")]:
             if plan.get("slice_families") and h.family not in plan["slice_families"]:
                 continue
             for inst, ls, meta in slice_lines(h, kind, flags):
